@@ -4,7 +4,7 @@ from .. import env, attach, gen, flow, solve
 from ..refmodel import RefLP, eao_point
 
 PROPERTY = 'C02'
-CASES = {'quick': 180, 'thorough': 3000}
+CASES = {'quick': 540, 'thorough': 4320}
 BUDGET_S = {'quick': 200, 'thorough': 1800}
 RULE = ('case = one random portfolio over {SimpleContract, Contract (spread, time-varying capacity dictionaries, min/max take partly outside the '
         'horizon), Transport/ExtendedTransport (efficiency, per-flow costs, take), Storage (size, rates, efficiency, start/end level, inflow, '
@@ -17,7 +17,7 @@ ASSUMPTIONS = ['discounting to the END of each step (the convention the suite pi
                'transports are generated with min_cap >= 0 (documented direction node 1 -> node 2)',
                'storage block_size / MIP options / coarse frequency / periodicity are outside C02 (covered by C05/C13)',
                'value tolerance 1e-5 relative, feasibility 1e-6 scaled']
-MIN_NONVACUOUS = {'quick': {'ref.value_equal': 90, 'ref.eao_point_feasible_in_reference': 90, 'ref.feasibility_verdicts_agree': 120},
+MIN_NONVACUOUS = {'quick': {'ref.value_equal': 225, 'ref.eao_point_feasible_in_reference': 225, 'ref.feasibility_verdicts_agree': 300},
                   'thorough': {'ref.value_equal': 1800, 'ref.eao_point_feasible_in_reference': 1800}}
 
 
